@@ -121,13 +121,23 @@ def search(seed=0, windows=40):
                 return n, f"behaviour back inside the baseline is still {r2.threat_level.name} ({r2.violations[:1]}) after a confirmed anomaly (window {w}, seed {seed})"
             if str(res2).endswith("POSITIVE") and r3.threat_level != ThreatLevel.NONE:
                 return n, f"re-training then inspecting the same window reports {r3.threat_level.name} (window {w}, seed {seed})"
+            # the behaviour changes for good and the agent is re-trained on the new window: that window is the baseline now
+            with contextlib.redirect_stdout(io.StringIO()):
+                disp.observations[:] = []
+                for i in range(20):
+                    sysm.record_observation("a", output="completely different behaviour " * 6 + str(i % 3), response_time=7.5, confidence=0.05)
+                res3 = sysm.train_agent("a")
+                r4 = sysm.inspect("a")
+            if str(res3).endswith("POSITIVE") and r4.threat_level != ThreatLevel.NONE:
+                return n, (f"re-training on a new window, then inspecting that window, reports {r4.threat_level.name}/{r4.action.name} "
+                           f"({r4.violations[:2]}): the watcher still judges against the old baseline (window {w}, seed {seed})")
     return n, None
 
 
 if __name__ == "__main__":
     seed = int(os.environ.get("VERIF_SEED", "0") or 0)
     n, bad = search(seed, 40 if "--thorough" not in sys.argv else 400)
-    out = {"status": "ok" if bad is None else "violation", "bound": "24 fingerprints across every bound x op sequences depth<=4 (with a reference model of pending second signals); Treg table x rules; 40 random training windows (seeded)",
+    out = {"status": "ok" if bad is None else "violation", "bound": "24 fingerprints across every bound x op sequences depth<=4 (with a reference model of pending second signals); Treg table x rules; 40 random training windows incl. re-training on a changed window (seeded)",
            "cases": n}
     if bad:
         out["detail"] = bad
